@@ -850,7 +850,7 @@ func c13Reset(c *core.Ctx, compiled []*core.GenTS, skip func(*core.GenTS) bool, 
 			continue
 		}
 		for _, t := range g.Types {
-			if t.K != "map" && t.K != "list" && t.K != "struct" {
+			if t.K != "map" && t.K != "list" && t.K != "struct" && t.K != "union" {
 				continue
 			}
 			for _, lvl := range []string{"type", "repr"} {
